@@ -1,6 +1,7 @@
 /- Line-protocol driver for the runtime correspondences (K1, K2). -/
 import GoCo.Driver.Sexp
 import GoCo.Runtime.Concrete
+import GoCo.Runtime.Depth
 set_option autoImplicit false
 
 namespace GoCo
@@ -117,7 +118,8 @@ def runDepth (t : CTerm) (maxOps : Nat) : String := Id.run do
       | some (d', st', _) => d := d'; st := st'
   return " ".intercalate out.toList
 
-/-! ### K2: depth of the Go stack at every callback (pinned `For`: one frame per machine transition) -/
+/-! ### K2: depth of the Go stack at every callback (one frame per machine transition, except the
+    trampoline of the repaired `For`) -/
 
 def setDepthCfg (d : Nat) : Cfg Store Int String → Cfg Store Int String
   | .eval t k st => .eval t k { st with depth := d }
@@ -125,8 +127,9 @@ def setDepthCfg (d : Nat) : Cfg Store Int String → Cfg Store Int String
   | .loop n c p b k sk st => .loop n c p b k sk { st with depth := d }
   | c => c
 
-partial def runD (N : Nat) (c : Cfg Store Int String) (d : Nat) (fuel : Nat) : Cfg Store Int String :=
-  if c.final || fuel = 0 then c else runD N (step N (setDepthCfg d c)) (d + 1) (fuel - 1)
+/-- run to a final configuration; every callback logs the depth at which it runs (`stepDS`, Runtime/Depth.lean) -/
+partial def runDepthCfg (N : Nat) (c : Cfg Store Int String) (ds : DS) (fuel : Nat) : Cfg Store Int String :=
+  if c.final || fuel = 0 then c else runDepthCfg N (step N (setDepthCfg ds.d c)) (stepDS c ds) (fuel - 1)
 
 /-- events of one advance with depths normalised to the smallest depth of that advance -/
 def normEvents (evs : List String) : String :=
@@ -148,7 +151,7 @@ def runDepthTrace (t : CTerm) (maxOps : Nat) : String := Id.run do
     | some nx =>
       let st0 := { st with depth := 0 }
       let c0 : Cfg Store Int String := .eval (nx.f 0 st0) nx.k (nx.g 0 st0)
-      match runD loopBudget c0 1 machineFuel with
+      match runDepthCfg loopBudget c0 { d := 1 } machineFuel with
       | .halt st' (some pd) _ =>
         out := out.push s!"M=true[{normEvents (logDelta st.log st'.log)}]"
         d := { d with next := some ⟨pd.f, pd.g, pd.k⟩, current := pd.value }; st := st'
